@@ -226,6 +226,19 @@ def run_case(servers, keys, prefix, pooling):
         P.append(("set_many-odd-values-result", f"set_many({odd}) returned {r!r}, expected no failed keys"))
     if keys:
         check_routing(w, "set_many-odd-values", keys, P)
+    # 4c. a multi-get of ONE key is a multi-get: it finds what get finds, also when the value is empty
+    for k in keys[:4]:
+        r1 = w.call("get", k)
+        r2 = w.call("get_many", [k])
+        check_routing(w, "get_many-single", [k], P)
+        if r1[0] == "ret" and r1[1] is not None and r2 != ("ret", {inner(k): r1[1]}):
+            P.append(("get_many-single-differs-from-get", f"get({k!r}) returns {r1[1]!r} but get_many([{k!r}]) returns {r2!r}"))
+    # 4d. delete_many over a one-shot iterable reaches every key's server too
+    if keys:
+        w.call("set_many", {k: value_of(k) for k in keys})
+        r = w.call("delete_many", (k for k in keys), noreply=False)
+        check_routing(w, "delete_many-generator", keys, P)
+        w.call("set_many", {k: value_of(k) for k in keys})
     # 5. delete_many reaches every key's server
     r = w.call("delete_many", keys, noreply=False)
     if keys:
